@@ -41,6 +41,11 @@ def run(ctx, chk):
     chk.rule("H4", "serve(): exit events raised on every path; clean disconnects map to Ok")
     chk.rule("H5", "Drop: signal all workers, then join all; daemon drop shuts the connection down")
     run_on(fb, chk)
+    # the daemon thread leaves its read when the socket is shut down only if every receive loop stops at end of stream
+    from vlint.report import Renamed
+    from . import c08
+    chk.rule("H6", "end of stream (0 bytes) leaves every receive loop: a shut-down socket unblocks the daemon thread")
+    c08.s7s8(fb, Renamed(chk, {"S8": "H6"}))
     n = lambda r: len([i for i in chk.instances if i[0] == r])
     chk.floor("H3", n("H3"), 5)
 
